@@ -34,7 +34,7 @@ REGISTRY['C05'] = {
     'not_covered': ['BGPsec definition deltas', 'provider order inside an ASPA definition (contracts are over provider sets)', 'repository untouched on refusal (follows from no event, A8)'],
 }
 REGISTRY['C09'] = {
-    'v': ['c09_taskqueue', 'c09_scheduler', 'c09_queue', 'c09_events'],
+    'v': ['c09_taskqueue', 'c09_scheduler', 'c09_queue', 'c09_events', 'c09_taskname'],
     'k': [],
     'level_text': 'Against a ghost model of the (trusted) queue: a restart leaves no task in the running state and re-queues every task that was running, for any number of running tasks (unbounded loop invariant). The publish path schedules the RRDP update (unit c12_rfc8181). A committed CA event puts its follow-up on the queue in the same pre-save step (schedule_for_ca_event): repository sync after every object or key change, parent sync after a certificate request and after a key activation, the revocation task after a class is removed or an unexpected key is found. Queue transaction bodies (closure bodies lifted verbatim, R15) against a ghost model of the key-value transaction: schedule_task leaves the task pending exactly once at the time its mode prescribes, soonest modes keep the earlier of the two times, finish modes end the running entry, IfMissing never replaces, other tasks untouched; the claim fold step hands out the earliest due key; finish refuses only what is not running. Eventual execution, crash points and the scheduler loop are not decided.',
     'level_note': 'For the TaskQueue facade commons::queue::Queue is specified by assumed contracts (running/pending sets); in unit c09_queue the key-value Transaction (delete/store/has), task_storage_key/split_storage_key (format!/parse) and get_storage_key_and_time (find_map) carry assumed contracts and std::cmp::min::<u128> is assumed numeric; R7 (&self -> &mut self) lets the ghost model change.',
@@ -100,13 +100,13 @@ REGISTRY['C17'] = {
     'not_covered': ['the iterator chains of categorise_roa around the verified predicates, the too-permissive heuristic, AS0 handling', 'prefix-tree lookup (RisWhois) vs brute force', 'suggestion post-processing over large sets'],
 }
 REGISTRY['C16'] = {
-    'v': [],
+    'v': ['c16_parsers'],
     'k': ['k_api_roa'],
-    'level_text': 'Absence of arithmetic overflow, bad shifts, slice/index out of bounds and unwrap-None in the client-reachable pure helpers (api::roa prefix/payload algebra; more groups below), decided by CBMC over the full input domain of loop-free code (complete), string parsers bounded and labelled so. The CMS/XML/JSON decoders that take the raw bytes are not decided.',
+    'level_text': 'Absence of arithmetic overflow, bad shifts, slice/index out of bounds and unwrap-None in the client-reachable pure helpers (api::roa prefix/payload algebra; more groups below), decided by CBMC over the full input domain of loop-free code (complete), string parsers bounded and labelled so. On the extracted text, for inputs of any length (Verus): the IPv4 / IPv6 prefix parsers never underflow and only produce prefixes that satisfy the type invariant the Kani harnesses assume (length within the width of the family, host bits zero), and BgpSecAsnKey::from_str never indexes out of bounds or unwraps None for any number of parts (std splitting / number parsing are unconstrained externals). The CMS/XML/JSON decoders that take the raw bytes are not decided.',
     'level_note': 'Harness inputs are built by constructors encoding the type invariants; overflow judged as in a debug build; rpki-rs/bcder/serde_json/hyper decoders are outside.',
-    'technique': 'Kani function contracts and full-domain loop-free harnesses (CBMC) on the real crate',
+    'technique': 'Kani function contracts and full-domain loop-free harnesses (CBMC) on the real crate + Verus safety obligations on the extracted parser text',
     'design_ref': 'DESIGN.md section 10.4 (as built) and section 5 / C16',
-    'not_covered': ['rpki-rs CMS and XML decoders, serde_json, hyper (the larger half of the statement)', 'krill string parsers (BgpSecAsnKey / AspaDefinition / RoaPayload FromStr): str::split + collect under CBMC gave no verdict in 15 min at 11 GB for 3 symbolic bytes (design-probes/k_api_bgpsec_NO_VERDICT.rs); Verus has no str reasoning'],
+    'not_covered': ['rpki-rs CMS and XML decoders, serde_json, hyper (the larger half of the statement)', 'the iterator-style parsers (RoaPayload / RoaConfiguration / AspaDefinition / KrillVersion FromStr: str::Split iterators; CBMC gave no verdict in 15 min at 11 GB for 3 symbolic bytes, design-probes/k_api_bgpsec_NO_VERDICT.rs; Verus has no model of str::Split)'],
 }
 
 REGISTRY['C20'] = {
